@@ -12,9 +12,10 @@
 (* that train".  TLC explores all interleavings, losses, duplications,     *)
 (* reorderings and splices the adversary can produce.                      *)
 (***************************************************************************)
-EXTENDS Naturals, Sequences, FiniteSets, TLC
+EXTENDS Naturals, Sequences, FiniteSets, TLC, SequencesExt
 
-CONSTANTS Slots, Cap, Buffers, Ids, PDUs, N, Depth
+CONSTANTS Slots, Cap, Buffers, Ids, PDUs, N, Depth,
+          Export       \* TRUE: record the adversary's inputs and print each behaviour of length Depth (S->I)
 
 Train(p) == [k \in 1..N |-> <<p, k>>]
 NoCtx == [used |-> FALSE, id |-> 0, buf |-> 0, toks |-> <<>>]
@@ -23,8 +24,12 @@ NoG   == [open |-> FALSE, done |-> FALSE, toks |-> <<>>]
 VARIABLES st,     \* receiver + memory: [free (set), slot (slot -> context), owned (set, caller's hands)]
           g,      \* C03 ghost per id: tokens of the most recent accepted first fragment and all later fragments
           last,   \* ghost: what the last call did
-          depth
-vars == <<st, g, last, depth>>
+          depth,
+          hist    \* ghost (Export only): the adversary's inputs as scenario tokens for `gse_harness rxscn --scn`
+vars == <<st, g, last, depth, hist>>
+Rec(tok) == hist' = IF Export THEN Append(hist, tok) ELSE hist
+T2(a, b) == a \o ":" \o ToString(b)
+ExportInv == (Export /\ Len(hist) = Depth) => PrintT("SCNLINE " \o ToString(Slots) \o FoldLeft(LAMBDA a, b : a \o " " \o b, "", hist))
 
 SlotOf(id) == id % Slots
 
@@ -78,27 +83,29 @@ Provision(s, b) ==
 Init ==
   /\ st = [free |-> {}, slot |-> [k \in 0..(Slots - 1) |-> NoCtx], owned |-> Buffers]
   /\ g = [i \in Ids |-> NoG] /\ last = [t |-> "none", id |-> 0, deliv |-> <<>>, wasDone |-> FALSE, gtoks |-> <<>>, gopen |-> FALSE, pre |-> st]
-  /\ depth = 0
+  /\ depth = 0 /\ hist = <<>>
 
 Mark(r, id, wasDone, gt, go) ==
   last' = [t |-> r.t, id |-> id, deliv |-> r.deliv, wasDone |-> wasDone, gtoks |-> gt, gopen |-> go, pre |-> st]
 
 DoProvision == \E b \in st.owned : st' = Provision(st, b) /\ g' = g /\ depth' = depth + 1
                                    /\ last' = [last EXCEPT !.t = "provision", !.deliv = <<>>, !.pre = st]
+                                   /\ Rec("provision:0")
 
 DoComplete == LET r == RxComplete(st) IN st' = r.st /\ g' = g /\ depth' = depth + 1 /\ Mark(r, 0, FALSE, <<>>, FALSE)
+                                         /\ Rec("complete:0")
 
 DoFirst(id, p) ==
   LET r == RxFirst(st, id, p) IN
   /\ st' = r.st /\ depth' = depth + 1
   /\ g' = IF r.t = "fragmented" THEN [g EXCEPT ![id] = [open |-> TRUE, done |-> FALSE, toks |-> <<<<p, 1>>>>]] ELSE g
-  /\ Mark(r, id, FALSE, <<>>, FALSE)
+  /\ Mark(r, id, FALSE, <<>>, FALSE) /\ Rec(T2(T2("first", id), p))
 
 DoInter(id, p, k) ==
   LET r == RxInter(st, id, <<p, k>>) IN
   /\ st' = r.st /\ depth' = depth + 1
   /\ g' = IF g[id].open /\ Len(g[id].toks) <= N THEN [g EXCEPT ![id].toks = Append(g[id].toks, <<p, k>>)] ELSE g
-  /\ Mark(r, id, FALSE, <<>>, FALSE)
+  /\ Mark(r, id, FALSE, <<>>, FALSE) /\ Rec(T2(T2(T2("inter", id), p), k))
 
 DoEnd(id, p, k, crc) ==
   LET r  == RxEnd(st, id, <<p, k>>, crc)
@@ -108,9 +115,10 @@ DoEnd(id, p, k, crc) ==
              THEN [g EXCEPT ![id] = [open |-> ~(r.t = "completed"), done |-> (r.t = "completed"),
                                      toks |-> IF Len(gt) <= N + 1 THEN gt ELSE g[id].toks]]
              ELSE g
-     /\ Mark(r, id, g[id].done, gt, g[id].open)
+     /\ Mark(r, id, g[id].done, gt, g[id].open) /\ Rec(T2(T2(T2(T2("end", id), p), k), crc))
 
 Garbage == st' = st /\ g' = g /\ depth' = depth + 1 /\ last' = [last EXCEPT !.t = "garbage", !.deliv = <<>>, !.pre = st]
+           /\ Rec("garbage:0")
 
 Next ==
   \/ DoProvision \/ DoComplete \/ Garbage
